@@ -129,6 +129,7 @@ func C01(t *testing.T, ch *choice.Source, opt harness.Options, env *Env) harness
 	}
 	if c.Unified {
 		probes["unified_device"] = 1
+		probes["unified:"+strings.Split(c.Bench, "@")[0]] = 1
 	}
 	if c.UnifiedMem {
 		probes["unified_memory"] = 1
